@@ -188,7 +188,7 @@ pub fn judge_c15(sys: &SimSys, stats: &mut Stats) -> JobOut {
     out.out_hash = hash_evs(&r.evs);
     let cb = sys.trace.iter().filter(|p| p.1).count();
     let sb = sys.trace.len() - cb;
-    let ended = sys.max_len == 0 && (sys.max_iter == 0 || r.evs.len() < sys.max_iter);
+    let ended = if sys.api_sim { r.evs.len() < sys.max_len } else { sys.max_len == 0 && (sys.max_iter == 0 || r.evs.len() < sys.max_iter) };
     if ended {
         stats.bump("runs_that_ended_by_themselves");
     }
@@ -213,7 +213,18 @@ fn sides(sys: &SimSys, r: &Run, stats: &mut Stats) -> Vec<(bool, Vec<(Ev, Vec<Ac
     for client in [true, false] {
         let n = if client { sys.client.len() } else { sys.server.len() };
         match replay_side(sys, r, client) {
-            Ok(s) => v.push((client, s, n)),
+            Ok(mut s) => {
+                // a run that continues after the last packet and stopped by itself (no bound reached) ended because
+                // nothing was pending any more: a sentinel far in the future lets the monitors report an action, a
+                // timer or a block that was still pending as "time moved past it"
+                let natural = sys.cont && sys.max_len == 0 && (sys.max_iter == 0 || r.evs.len() < sys.max_iter) && sys.report_delay_us == (0, 0) && sys.trigger_delay_us == (0, 0);
+                if natural {
+                    let t = r.evs.last().map(|e| e.t).unwrap_or(0) + 1_000_000_000_000_000;
+                    s.push((Ev { t, client, event: TriggerEvent::NormalRecv, pad: false, bypass: false, replace: false }, vec![]));
+                    stats.bump("sides_judged_to_the_natural_end_of_the_run");
+                }
+                v.push((client, s, n))
+            }
             Err(_) => stats.bump("replay_failed"),
         }
     }
@@ -346,7 +357,7 @@ pub fn judge_c18_integ(sys: &SimSys, stats: &mut Stats) -> JobOut {
 }
 
 pub fn judge_c18(sys: &SimSys, stats: &mut Stats) -> JobOut {
-    if sys.report_delay_us != (0, 0) {
+    if sys.report_delay_us != (0, 0) || sys.trigger_delay_us != (0, 0) {
         return judge_c18_integ(sys, stats);
     }
     let mut out = JobOut::default();
@@ -725,7 +736,27 @@ pub fn worker_c15(ctx: &WorkerCtx) -> WorkerOut {
             Some(sp.build(&j))
         }
     };
-    let total0 = n + 6 * (n / 41);
+    let total00 = n + 6 * (n / 41);
+    // the sim() entry point with machines (only network activity recorded, a length bound the run does not reach): the
+    // wrapper must not stop the run before all normal packets are processed
+    let napi = n / 5;
+    let build = |i: usize| -> Option<SimSys> {
+        if i < total00 {
+            return build(i);
+        }
+        let j = pr.job((i - total00) * 5);
+        if j.fr != 0 || sp.traces[j.trace as usize].len() > 3 {
+            return None;
+        }
+        let mut s = sp.build(&j);
+        s.api_sim = true;
+        s.only_net = true;
+        s.max_len = 8;
+        s.max_iter = 0;
+        s.cont = false;
+        Some(s)
+    };
+    let total0 = total00 + napi;
     // many packets held back at once by one long block (the blocked queue grows past a thousand entries)
     let mass = c15_mass_systems(q);
     let corp = corpus_systems(&sp, ctx.seed.wrapping_add(1015), if q { 3000 } else { 60000 }, &delays);
@@ -829,6 +860,8 @@ pub fn worker_c18(ctx: &WorkerCtx) -> WorkerOut {
     let pure: Vec<u16> = (0..sp.lib.len() as u16).filter(|i| sp.lib[*i as usize].name.starts_with("tmr(")).collect();
     let rds: [(u64, u64); 4] = [(3, 0), (0, 3), (3, 1), (1000, 1000)];
     let mut integ: Vec<(Job, (u64, u64))> = vec![];
+    // (the same list is run a second time with these values as *trigger* delays instead: a trigger delay postpones
+    // scheduled padding / blocking actions, never the internal timer)
     for (k, t) in pure.iter().enumerate() {
         let other = pure[(k * 7 + 3) % pure.len()];
         for (cs, ss) in [(vec![*t], vec![]), (vec![], vec![*t]), (vec![*t, other], vec![]), (vec![*t], vec![other])] {
@@ -845,9 +878,14 @@ pub fn worker_c18(ctx: &WorkerCtx) -> WorkerOut {
     }
     let build = |i: usize| -> Option<SimSys> {
         if i >= n {
-            let (j, rd) = &integ[i - n];
+            let k = i - n;
+            let (j, rd) = &integ[k % integ.len()];
             let mut s = sp.build(j);
-            s.report_delay_us = *rd;
+            if k < integ.len() {
+                s.report_delay_us = *rd;
+            } else {
+                s.trigger_delay_us = *rd;
+            }
             return Some(s);
         }
         let j = pr.job(i);
@@ -857,12 +895,13 @@ pub fn worker_c18(ctx: &WorkerCtx) -> WorkerOut {
         Some(sp.build(&j))
     };
     let corp = corpus_systems(&sp, ctx.seed.wrapping_add(1018), if q { 3000 } else { 60000 }, &delays);
-    let total0 = n + integ.len();
+    let total0 = n + 2 * integ.len();
     let build = |i: usize| -> Option<SimSys> { if i >= total0 { Some(corp[i - total0].clone()) } else { build(i) } };
     let total = total0 + corp.len();
     let mut b = bounds(&sp, total, &delays);
     b["sampled_systems_of_generated_machines"] = json!(corp.len());
     b["systems_with_a_reporting_delay_integration"] = json!(integ.len());
+    b["systems_with_a_trigger_delay_integration"] = json!(integ.len());
     b["reporting_delays_us_client_server"] = json!(rds.iter().map(|x| vec![x.0, x.1]).collect::<Vec<_>>());
     let res = run_jobs("C18", total, &build, &judge_c18, ctx);
     finish("C18", res, "one job = one closed system with UpdateTimer gadgets (both replace settings, durations from 0, repeated updates at one instant, cancels of the internal timer, several machines, both sides, timers expiring while a block is active); per-machine monitor of the timer expiry per the UpdateTimer contract vs reported TimerBegin/TimerEnd. A further set of systems runs pure timer gadgets under a constant integration reporting delay, judged by a trace-level monitor (expiry = last TimerBegin + constant duration). distinct_nontrivial = distinct output traces with at least one TimerBegin", b, 1000, ctx, vec![ASSUME.into(), "integration systems: constant reporting delay only (no action or trigger delay), pure timer gadgets".into()])
@@ -1116,7 +1155,7 @@ pub fn worker_c19(ctx: &WorkerCtx) -> WorkerOut {
                 let mut u = j;
                 u.max_len = [usize::MAX, 1usize << 48, 1usize << 33][slot - 1];
                 u.max_iter = 120;
-                u.cont = false;
+                u.cont = (i / 211) % 2 == 0;
                 Some(u)
             }
             4 if i % 4 == 0 => {
